@@ -72,6 +72,7 @@ type Ctx struct {
 	typeByCanon   map[string]*types.TypeName
 	freshFuncs    map[*types.Func]bool // functions the pinned inventory does not know (extracted helpers, new code)
 	pinnedCallers map[string][]string  // rel|key -> pinned static callers (for helpers inlined into their caller)
+	pinnedParams  map[string][]string  // rel|key -> pinned parameter names (receiver first)
 	Inlined       []string             // pinned functions that are gone and are looked for in their single pinned caller
 	Aliases       []string             // renamed identifiers recognised by shape, "pkg.current = pinned name"
 }
@@ -153,9 +154,15 @@ func Load(cfg Config) (*Ctx, error) {
 		}
 		Instrs(fn, func(in ssa.Instruction) {
 			if ci, ok := in.(ssa.CallInstruction); ok {
+				if cal := ci.Common().StaticCallee(); cal != nil && c.IsLib(cal) {
+					freshMu.Lock()
+					allCalls[cal] = append(allCalls[cal], ci)
+					freshMu.Unlock()
+				}
 				if cal := ci.Common().StaticCallee(); cal != nil && c.IsFresh(cal) {
 					freshMu.Lock()
 					freshCalls[cal] = append(freshCalls[cal], ci)
+					freshFns[cal] = true
 					freshMu.Unlock()
 				}
 			}
